@@ -68,8 +68,8 @@ pub(crate) fn impl_cbrt_uint_scale(
         );
     }
 
-    let result_digits = integer_digits.nth_root(3);
-    let result_digits_count = count_decimal_digits_uint(&result_digits);
+    let root_digits = integer_digits.nth_root(3);
+    let result_digits_count = count_decimal_digits_uint(&root_digits);
     debug_assert!(result_digits_count > precision.get());
 
     let digits_to_trim = result_digits_count - precision.get();
@@ -79,7 +79,7 @@ pub(crate) fn impl_cbrt_uint_scale(
     new_scale -= digits_to_trim as i64;
 
     let divisor = ten_to_the_uint(digits_to_trim);
-    let (mut result_digits, remainder) = result_digits.div_rem(&divisor);
+    let (mut result_digits, remainder) = root_digits.div_rem(&divisor);
 
     let remainder_digits = remainder.to_radix_le(10);
     let insig_digit0;
@@ -95,7 +95,10 @@ pub(crate) fn impl_cbrt_uint_scale(
     }
 
     let insig_data = rounding::InsigData::from_digit_and_lazy_trailing_zeros(
-        rounding_data, insig_digit0, || { trailing_digits.iter().all(Zero::is_zero) }
+        rounding_data, insig_digit0, || {
+            // the discarded part is zero only if the integer root itself is exact
+            trailing_digits.iter().all(Zero::is_zero) && root_digits.pow(3u32) == *integer_digits
+        }
     );
 
     // lowest digit to round
